@@ -2729,7 +2729,21 @@ fn check_disk(rep: &mut Report, drv: &mut Driver, p: &Program, keep: &dyn Fn(usi
     let tree = match FileTree::read(&root) {
         Ok(t) => t,
         Err(e) => {
-            rep.mismatch(&format!("FileTree::read failed on a generated directory: {}", err_class(&format!("{e}"))), json!({"case": ident, "variant": label}));
+            // the directory holds the generated tree (identifier-shaped names, `pkg.roto`,
+            // `name.roto` / `name/mod.roto`) plus noise the documented rules ignore: when the
+            // documented discovery (model) yields a tree, failing to read it is a violation
+            // of the property itself — e.g. same-named modules in different directories
+            let msg = strip_ansi(&format!("{e}"));
+            if want != "none" {
+                violate(
+                    rep,
+                    &format!("a valid package directory (modules {want}) was rejected by FileTree::read: {}", msg.lines().take(3).collect::<Vec<_>>().join(" | ").chars().take(300).collect::<String>()),
+                    "discovery:valid-tree-rejected",
+                    json!({"case": ident, "variant": label, "listing": toks.join(" ")}),
+                );
+            } else {
+                rep.mismatch(&format!("FileTree::read failed on a generated directory: {}", err_class(&format!("{e}"))), json!({"case": ident, "variant": label}));
+            }
             let _ = std::fs::remove_dir_all(&root);
             return;
         }
@@ -2768,7 +2782,8 @@ fn check_disk(rep: &mut Report, drv: &mut Driver, p: &Program, keep: &dyn Fn(usi
         let mut mp: Vec<Vec<String>> = vec![];
         for m in &p.mods {
             let mut path = match m.parent { Some(pi) if pi < mp.len() => mp[pi].clone(), _ => vec![] };
-            path.push(p.names[m.ident].clone());
+            // the root of a package on disk is `pkg.roto` whatever the tree calls its root (fixed tree 8)
+            path.push(if m.parent.is_none() { "pkg".to_string() } else { p.names[m.ident].clone() });
             mp.push(path);
         }
         want_paths = mp.iter().map(|x| x.join(".")).collect();
@@ -2797,7 +2812,8 @@ fn check_disk(rep: &mut Report, drv: &mut Driver, p: &Program, keep: &dyn Fn(usi
     let _ = std::fs::remove_dir_all(&root);
     // `name.roto` next to `name/mod.roto`: two modules of one name — an error, not a silent choice
     if noise & (1 << 25) != 0 {
-        if let Some(c) = children_of(p, 0).into_iter().find(|c| !children_of(p, *c).is_empty()) {
+        // (`pkg.roto` / `mod.roto` are the directory's own file, not a module next to it)
+        if let Some(c) = children_of(p, 0).into_iter().find(|c| !children_of(p, *c).is_empty() && !matches!(p.names[p.mods[*c].ident].as_str(), "pkg" | "mod")) {
             write_tree(p, 0, &root, keep, tags, 0);
             let name = &p.names[p.mods[c].ident];
             std::fs::write(root.join(format!("{name}.roto")), "fn zz() -> i64 { 0 }\n").expect("write");
@@ -2864,7 +2880,9 @@ fn check_disk(rep: &mut Report, drv: &mut Driver, p: &Program, keep: &dyn Fn(usi
 
 fn check_case(rep: &mut Report, drv: &mut Driver, p: &Program, ident: J, tier: &str, index: u64) -> CaseResult {
     let max_err = if tier == "thorough" { 12 } else { 6 };
-    let disk = if index % 3 == 0 { Some(Prng::for_case(index, 77).next()) } else { None };
+    // every third tree, and every fixed boundary tree (same-named modules in different
+    // directories, a directory called `pkg`, …), is also written to disk and discovered
+    let disk = if index % 3 == 0 || (index as usize) < fixed_cases().len() { Some(Prng::for_case(index, 77).next()) } else { None };
     let first = check_variant(rep, drv, p, "as-written", &ident, max_err, disk);
     expect_oracle(rep, p, &first, &ident, "as-written");
     // import order: the same tree with every scope's imports reversed
